@@ -267,6 +267,17 @@ def check_case(case, ctx):
             else:
                 cnf = tseytin_transformation(c, list(sel))
             is_satisfiable(cnf)
+            if rng.random() < 0.3:
+                # the caller goes on working with the object it was handed: constrains it further, edits the raw list
+                with monitor.suspended():
+                    lit = rng.choice([1, -1, 2, -2])
+                    if rng.random() < 0.5:
+                        cnf.add_clause([lit])
+                    else:
+                        raw = cnf.get_raw()
+                        if isinstance(raw, list):
+                            raw.append([lit])
+                ctx.count('returned_cnf_edited_by_owner')
         except Exception as e:
             ctx.unexpected('tseytin_transformation', e, CUR['case'])
             continue
